@@ -7,13 +7,17 @@ ASSUMPTIONS = [
     "templates and substrates come from the corpus reactions that are formula-balanced, fully and bijectively mapped and write their centre hydrogens consistently (decided by the harness with RDKit)",
     "explicit-H corpus (graph.pkl) is run with the default H mode, the implicit-H corpus (ecoli) with implicit_temp=True / explicit_h=False",
     "(b) is only required of rules that are themselves conserving: full-ITS templates always are; a centre template is only when every hydrogen/charge change of its source reaction lies on a changed bond",
-    "(a) and (b) are judged on the emitted reaction strings with RDKit; (c) on the emitted ITS graphs: their changed-bond graph (order change per bond, element and hydrogen-count change per end atom, explicit "
-    "hydrogens folded into counts) must be isomorphic (ref_match) to the one computed by the harness from the template's source reaction",
+    "(a) and (b) are judged on the emitted reaction strings with RDKit; (c) on the emitted ITS graphs: their changed-bond graph (order change per bond, element, hydrogen-count and charge change per end atom, explicit "
+    "hydrogens folded into counts; for templates that carry every change of their source reaction also every atom that changes its charge off the changed bonds) must be isomorphic (ref_match) to the one computed by the "
+    "harness from the template's source reaction",
+    "templates between centre and full ITS (radius 1/2, partial second shell) are judged for (a)-(c) only; regeneration (C04) is stated for centre and full templates",
 ]
 RULE = {
-    "quick": "every usable corpus reaction x own template {centre: strategies all/comp/bt; full ITS: bt} x {forward, backward}; every centre template x 4 substrates of other reactions x {forward, backward} x {all, bt}; "
-    "every output judged; non-trivial = at least one output",
-    "thorough": "all strategies for both template kinds; 25 foreign substrates per template",
+    "quick": "every usable reaction (corpus + 28 hand-written explicit-hydrogen reactions: charged look-alike atoms, duplicated molecules, aromatic ring formation, unsymmetrical cycloaddition) x own template "
+    "{centre: all/bt; full ITS: bt/comp; centre + radius 1 / radius 2; centre + first shell + one second-shell atom (4 of them, look-alike siblings first); the reaction string itself} x {forward, backward}; "
+    "round trips: the template as a string (centre and full) on two copies of the reactants, then the opposite direction on each product mixture, and backwards first under another numbering; "
+    "every centre template x 2 substrates of other reactions x {forward, backward} x {all, bt}; 4 wildcard rules x 12 substrates; every output judged; non-trivial = at least one output",
+    "thorough": "all strategies for every template kind; every second-shell atom; 20 foreign substrates per template",
 }
 
 
